@@ -249,13 +249,9 @@ func (o *c13Out) add(cat, sig string, msg func() string) {
 	// tried to commit) an explicit transaction earlier in this run on this handle. Everything observed after that gets a
 	// signature of its own, so that the same kind of failure WITHOUT an earlier Stop is still reported.
 	// The handle leaves that mode again when the client calls Abort (or a new Start succeeds) before doing anything
-	// else: runs in which that happened carry no qualifier. And what the leaked transaction loses when a later fault or
-	// Abort rolls it back is told apart from everything else that can go wrong in that mode.
+	// else: runs in which that happened carry no qualifier.
 	if o.stoppedOK && cat != "setup" {
 		sig += "-after-earlier-stop"
-		if o.leakedRB && cat == "res" {
-			sig += "-leaked-tx-rolled-back"
-		}
 	}
 	o.viol = append(o.viol, c13Viol{cat, sig, msg})
 }
